@@ -441,6 +441,20 @@ def rewrite_cases(thorough):
 def run_rewrites(case, part):
     env.reset()
     rc = rewrite_cases(case["thorough"])
+    if case.get("phase"):
+        # warm-up: 600 ordinary comparisons of small patterns with one or two OR groups under an AND (each against a commuted copy, which must be equivalent too)
+        for i in range(600):
+            width, ngroups = (3, 2) if i % 5 < 3 else (3, 1) if i % 5 == 3 else (2, 1)
+            ors = [("cparen", ("bool", "OR", tuple(atom("=", "p%d" % gi, I(i * 10 + w)) for w in range(width)))) for gi in range(ngroups)]
+            z = atom("=", "z", I(0))
+            tp = A.to_text(("leaf", ("bool", "AND", (z,) + tuple(ors))))
+            tq = A.to_text(("leaf", ("bool", "AND", tuple(reversed(ors)) + (z,))))
+            r, err = call_eq(tp, tq)
+            part.transitions += 1
+            if r != "1":
+                part.violation("C09/rewrite-not-recognised-late-in-a-long-lived-process/commute-comparison", "a documented algebraic rewrite is not recognised as an equivalence",
+                               {"rewrite": "commute-comparison", "p": tp, "q": tq, "thorough": case["thorough"], "warmup_step": i}, "equivalent", err or "different")
+                break
     for idx in range(case["lo"], min(case["hi"], len(rc))):
         rule, p, q = rc[idx]
         tp, tq = A.to_text(p), A.to_text(q)
@@ -450,14 +464,107 @@ def run_rewrites(case, part):
         part.state(("rewrite", rule, tp, tq), nontrivial=True)
         part.outcome("rewrite:" + {"1": "recognised", "0": "NOT-recognised", "E": "raises"}[r])
         if r != "1":
-            part.violation("C09/rewrite-not-recognised/%s" % rule, "a documented algebraic rewrite is not recognised as an equivalence", {"rewrite": rule, "p": tp, "q": tq, "thorough": case["thorough"]},
-                           "equivalent", err or "different")
+            part.violation("C09/rewrite-not-recognised%s/%s" % ("-late-in-a-long-lived-process" if case.get("phase") else "", rule), "a documented algebraic rewrite is not recognised as an equivalence",
+                           {"rewrite": rule, "p": tp, "q": tq, "thorough": case["thorough"]}, "equivalent", err or "different")
     return None
+
+
+# ---- N: numeric constants at the limits of float arithmetic (exact-value oracle) --------------------------------
+NUMBERS = [I(1), ("float", 1.0), I(2 ** 53), I(2 ** 53 + 1), I(2 ** 53 + 2), ("float", float(2 ** 53)), I(-(2 ** 53) - 1), I(2 ** 63), I(2 ** 63 + 1), I(2 ** 64), I(10 ** 30), I(10 ** 30 + 1),
+           ("float", 0.1), ("float", 0.30000000000000004), ("float", 0.3), I(0), ("float", 0.5), I(10 ** 310), I(10 ** 310 + 1)]
+
+
+def num_value(c):
+    return c[1]
+
+
+def number_patterns():
+    """(text, denotation): denotation = frozenset of exact values for '=' / IN atoms and ORs of '=' atoms"""
+    out = []
+    for c in NUMBERS:
+        out.append((A.to_text(("leaf", atom("=", "p", c))), ("set", frozenset([("n", num_value(c))]))))
+    for a, b in itertools.combinations(NUMBERS[:12], 2):
+        out.append((A.to_text(("leaf", atom("IN", "p", ("set", (a, b))))), ("set", frozenset([("n", num_value(a)), ("n", num_value(b))]))))
+        out.append((A.to_text(("leaf", ("bool", "OR", (atom("=", "p", a), atom("=", "p", b))))), ("set", frozenset([("n", num_value(a)), ("n", num_value(b))]))))
+    return out
+
+
+def run_numbers(case, part):
+    """all ordered pairs: two patterns of this family are equivalent exactly when they allow the same set of exact numbers (Python compares int and float exactly)"""
+    env.reset()
+    pats = number_patterns()
+    i = case["row"]
+    ti, di = pats[i]
+    part.state(("N", ti), nontrivial=True)
+    for j, (tj, dj) in enumerate(pats):
+        part.evaluations += 1
+        part.transitions += 1
+        r, err = call_eq(ti, tj)
+        c = {"kind": "numbers", "row": i, "p": ti, "q": tj}
+        if err:
+            part.outcome("raises")
+            part.violation("C09/raises/%s/numeric-constant" % err, "the equivalence test fails on syntactically valid patterns", c, "a boolean", err)
+            continue
+        same = di == dj
+        part.outcome("equivalent" if r == "1" else "different")
+        if r == "1" and not same:
+            part.violation("C09/unsound/numeric-constants", "patterns that allow different numbers are reported equivalent", c, "different", "equivalent")
+        if r == "0" and same and i == j:
+            part.violation("C09/not-reflexive/numeric-constant", "a pattern is not reported equivalent to itself", c, True, False)
+
+
+# ---- M: several object types in one pattern (find_equivalent_patterns vs pairwise on EVERY pair) ---------------
+def multi_type_patterns():
+    a, b, c = (("cmp", "=", False, ("path", t, (("key", "p"),)), I(1)) for t in ("aa-a", "bb-b", "cc-c"))
+    LA, LB, LC = ("leaf", a), ("leaf", b), ("leaf", c)
+    out = [LA, LB, ("obs", "OR", (LA, ("obs", "AND", (LA, LB)))), ("obs", "OR", (LA, ("obs", "FOLLOWEDBY", (LB, LA)))), ("obs", "OR", (LA, ("obs", "FOLLOWEDBY", (LA, LB)))),
+           ("obs", "OR", (("obs", "AND", (LB, LA)), LA)), ("obs", "AND", (LA, LB)), ("obs", "AND", (LB, LA)), ("obs", "FOLLOWEDBY", (LA, LB)), ("obs", "FOLLOWEDBY", (LB, LA))]
+    for perm in itertools.permutations((a, b, c)):
+        out.append(("leaf", ("bool", "OR", perm)))
+    out.append(("leaf", ("bool", "OR", (("cparen", ("bool", "OR", (a, b))), c))))
+    out.append(("leaf", ("bool", "OR", (a, ("cparen", ("bool", "OR", (b, c)))))))
+    for perm in itertools.permutations((LA, LB, LC)):
+        out.append(("obs", "OR", perm))
+        out.append(("obs", "AND", perm))
+    out.append(("obs", "OR", (LA, ("oparen", ("obs", "OR", (LB, LC))))))
+    out += [("leaf", ("bool", "OR", (a, b))), ("leaf", ("bool", "OR", (b, a))), ("leaf", ("bool", "AND", (a, ("cparen", ("bool", "OR", (a, b))))))]
+    return [A.to_text(t) for t in out]
+
+
+def run_multitype(case, part):
+    import stix2.equivalence.pattern as EP
+    env.reset()
+    texts = multi_type_patterns()
+    i = case["row"]
+    part.state(("M", texts[i]), nontrivial=True)
+    try:
+        found = set(EP.find_equivalent_patterns(texts[i], texts))
+    except Exception as e:
+        part.violation("C09/raises/%s/find_equivalent_patterns" % type(e).__name__, "find_equivalent_patterns fails on syntactically valid patterns", {"kind": "multitype", "row": i, "p": texts[i]}, "a list", str(e)[:100])
+        return
+    row = ""
+    for j, tj in enumerate(texts):
+        part.evaluations += 2
+        part.transitions += 2
+        r, err = call_eq(texts[i], tj)
+        c = {"kind": "multitype", "row": i, "p": texts[i], "q": tj}
+        if err:
+            part.violation("C09/raises/%s/several-object-types" % err, "the equivalence test fails on syntactically valid patterns", c, "a boolean", err)
+            continue
+        part.outcome("equivalent" if r == "1" else "different")
+        if (tj in found) != (r == "1"):
+            part.violation("C09/find-vs-pairwise/M", "find_equivalent_patterns disagrees with equivalent_patterns on the same pair", c, r, "1" if tj in found else "0")
+        row += r
+    return ("M", i, row, None)
 
 
 def run_case(case, part):
     if case["kind"] == "row":
         return run_row(case, part)
+    if case["kind"] == "numbers":
+        return run_numbers(case, part)
+    if case["kind"] == "multitype":
+        return run_multitype(case, part)
     return run_rewrites(case, part)
 
 
@@ -597,6 +704,13 @@ def run(run):
     nrw = len(rewrite_cases(th))
     for lo in range(0, nrw, 50):
         cases.append({"kind": "rewrites", "lo": lo, "hi": lo + 50, "thorough": th})
+    for i in range(len(number_patterns())):
+        cases.append({"kind": "numbers", "row": i})
+    for i in range(len(multi_type_patterns())):
+        cases.append({"kind": "multitype", "row": i})
+    # the same rewrite instances once more, each chunk after a warm-up of 600 ordinary comparisons in the same process: the answer must not depend on
+    # how much the process has already compared
+    cases += [{"kind": "rewrites", "lo": lo, "hi": lo + 50, "thorough": th, "phase": "late"} for lo in range(0, nrw, 50)]
     run.mode = "DEV (all ordered pairs)"
     run.part.results = []
     run.pmap(run_case, cases)
@@ -605,14 +719,17 @@ def run(run):
         if r is None:
             continue
         gname, i, row, sig = r
+        if gname == "M":
+            continue
         rows.setdefault(gname, {})[i] = (row, sig)
     run.part.results = []
     for gname, (asts, texts) in g.items():
         analyse(gname, rows.get(gname, {}), texts, run.part, th)
     sizes = {k: len(v[1]) for k, v in g.items()}
     run.rule = ("all ordered pairs of patterns inside each group through equivalent_patterns (%s); + %d rewrite instances; + find_equivalent_patterns for %s rows; matrix laws on the whole matrix; "
-                "soundness against an independent evaluator on 12 objects / %d observation sequences x %d readings; states = distinct patterns and rewrite instances"
-                % (", ".join("%s: %d^2" % (k, n) for k, n in sizes.items() if k != "T") + ", T: %d x 2" % sizes["T"], nrw, "all" if th else "every 7th", len(universe("XY")), len(SEMS)))
+                "numeric constants at the limits of float arithmetic (%d patterns, all ordered pairs, exact-value oracle); patterns over several object types (%d, every pair through both entry points); "
+                "every rewrite instance asked again at the end of each worker process; soundness against an independent evaluator on 12 objects / %d observation sequences x %d readings; states = distinct patterns and rewrite instances"
+                % (", ".join("%s: %d^2" % (k, n) for k, n in sizes.items() if k != "T") + ", T: %d x 2" % sizes["T"], nrw, "all" if th else "every 7th", len(number_patterns()), len(multi_type_patterns()), len(universe("XY")), len(SEMS)))
     run.bound = {"group_sizes": sizes, "universe_objects": len(OBJECTS), "universe_sequences": len(universe("XY")), "semantic_readings": len(SEMS), "rewrite_instances": nrw}
     run.assumptions += ["independent evaluator in mc/checks/c09_pattern_equivalence.py; where the specification's semantics is disputed a FAMILY of readings is used and a pair is unsound only if every reading "
                         "distinguishes it", "properties are always present in universe objects (the missing-path semantics of NOT is never exercised)", "incompleteness (equal but reported different) is not a violation"]
